@@ -10,8 +10,13 @@
 #define SL 1
 #endif
 struct pval { i32 a; u8 b; i64 c; const u8* s; u32 sl; };
-/* deterministic byte hash standing in for libstdc++'s _Hash_bytes (only determinism matters for the universal claims) */
-u64 __vstd_hash_bytes(u8* p, u64 n) { u64 h = 1469598103934665603ULL; for (u64 i = 0; i < n; ++i) { h ^= p[i]; h *= 1099511628211ULL; } return h; }
+/* deterministic byte hash standing in for libstdc++'s _Hash_bytes behind std::hash<std::string> (only determinism matters for the universal claims) */
+#ifndef NATIVE_REAL
+/* (the g++ build links the real one from libstdc++) std::hash<float/double> (real libstdc++ header code) calls the out-of-line std::_Hash_bytes(ptr, len, seed): modelled by a deterministic,
+ * multiplication-free byte mix (only determinism matters for "equal => equal"; sensitivity is an existential witness) */
+u64 _ZSt11_Hash_bytesPKvmm(u8* p, u64 n, u64 seed) { u64 h = seed; for (u64 i = 0; i < n; ++i) h = ((h << 5) | (h >> 59)) ^ p[i]; return h; }
+#endif
+u64 __vstd_hash_bytes(u8* p, u64 n) { u64 h = 1469598103934665603ULL ^ n; for (u64 i = 0; i < n; ++i) h = ((h << 7) | (h >> 57)) ^ p[i]; return h; }   /* multiplication-free: SAT-friendly */
 
 static void in_p(struct pval* v, u8* buf)
 {
@@ -78,6 +83,25 @@ int main(void)
     WITNESS_AT(a != a2 && k_hash_uptr(a) != k_hash_uptr(a2), "pointer hash depends on the pointee");
     OBS("t2=%lu t3=%lu pair=%lu nested=%lu var=%lu up=%lu sp=%lu\n", (unsigned long)k_hash_t2(a, b), (unsigned long)k_hash_t3(a, ub, (u64)l), (unsigned long)k_hash_pair(a, (u64)l),
         (unsigned long)k_hash_nested(a, b, c2), (unsigned long)k_hash_variant(1, (u64)l), (unsigned long)k_hash_uptr(a), (unsigned long)k_hash_sptr(a));
+#elif defined(MODE_FP)
+    /* every double / float bit pattern (signed zeros, subnormals, infinities; NaN excluded: it compares unequal to itself, so "equal
+     * values" never contains one and the member-tuple order is not a total order on it) */
+    double d1 = ir2c_bits_u64_to_double(((u64)in_u32() << 32) | in_u32()), d2 = ir2c_bits_u64_to_double(((u64)in_u32() << 32) | in_u32());
+    float f1 = ir2c_bits_u32_to_float(in_u32()), f2 = ir2c_bits_u32_to_float(in_u32());
+    i32 a1 = (i32)in_u32(), a2 = (i32)in_u32();
+    ASSUME(d1 == d1 && d2 == d2 && f1 == f1 && f2 == f2);
+    int c = d1 != d2 ? (d1 < d2 ? -1 : 1) : a1 != a2 ? (a1 < a2 ? -1 : 1) : f1 != f2 ? (f1 < f2 ? -1 : 1) : 0;
+    CHECK(k_ops_q(d1, a1, f1, d2, a2, f2) == ref_ops(c), "C16: the six comparison operators agree with lexicographic comparison of the member tuple (floating-point members)");
+    CHECK(c != 0 || k_hash_q(d1, a1, f1) == k_hash_q(d2, a2, f2), "C16: equal values hash equal (floating-point members, +0.0 == -0.0)");
+    CHECK(d1 != d2 || k_hash_td(a1, d1) == k_hash_td(a1, d2), "C16: equal tuples hash equal (tuple<int,double>)");
+    CHECK(d1 != d2 || k_hash_pd(d1, a1) == k_hash_pd(d2, a1), "C16: equal pairs hash equal (pair<double,int>)");
+    CHECK(d1 != d2 || k_hash_vd(d1) == k_hash_vd(d2), "C16: equal variants hash equal (variant<int,double>)");
+    CHECK(f1 != f2 || k_hash_f(f1) == k_hash_f(f2), "C16: equal floats hash equal");
+    WITNESS_AT(c == 0 && ir2c_bits_double_to_u64(d1) != ir2c_bits_double_to_u64(d2), "equal values with different zero signs");
+    WITNESS_AT(c == 0 && d1 != 0.0, "equal non-zero values");
+    WITNESS_AT(c < 0 && d1 == d2 && a1 == a2, "ordered by the float member");
+    WITNESS_AT(k_hash_td(a1, d1) != k_hash_td(a1, d2), "tuple hash depends on the double component");
+    OBS("ops=%u c=%d\n", k_ops_q(d1, a1, f1, d2, a2, f2), c);
 #else
 #error "no MODE"
 #endif
